@@ -114,6 +114,23 @@ def step (st : State) (w : List String) : State × String :=
       let ls := labelsOf name
       (st, s!"w={asStr qt (asWire st.zones ls qt)} m={asStr qt (asMsg st.zones ls qt)}")
     | _, _ => (st, "bad-op")
+  | "sock" :: "probe" :: kv =>
+    match (kvGet kv "pkt").bind natBytes with
+    | some (_ :: _ :: f1 :: f0 :: q1 :: q0 :: a1 :: a0 :: n1 :: n0 :: r1 :: r0 :: _) =>
+      let fl := u16 f1 f0
+      let v := acceptVerdict fl (u16 q1 q0) (u16 a1 a0) (u16 n1 n0) (u16 r1 r0)
+      let reply := if v == 0 then "served" else if v == 1 then "silent"
+        else s!"rcode={rejectRcode v}/qr=1/op={(fl >>> 11) &&& 0xF}"
+      (st, s!"verdict={v} udp={reply} tcp={reply}")
+    | _ => (st, "bad-op")
+  | "rx" :: "facts" :: kv =>
+    match (kvGet kv "pkt").bind natBytes with
+    | some b =>
+      match parseWire b with
+      -- reflex sizes a request by the packet the client sent, on both kinds of request
+      | some f => (st, s!"w={f.qtype}/{b.length}/t m={f.qtype}/{b.length}/t")
+      | none => (st, "w=none m=skip")
+    | none => (st, "bad-op")
   | "sx" :: "walk" :: kv =>
     match kvGet kv "name" with
     | some name =>
@@ -251,6 +268,12 @@ def step (st : State) (w : List String) : State × String :=
     -- den=1: a cached NSEC3 proof covers the name — synthesis succeeds, and no failure recorded over
     -- that zone carries a witness that holds
     let den := bflag (g "den")
+    -- rm=purge removes everything recorded for the question, rm=flood evicts the (oldest) cut
+    let rm := (g "rm").getD ""
+    let ex := ex && rm != "purge"
+    let cut := cut && rm == ""
+    -- (Cache.Purge drops the question's own failure state; a zone-wide failure is not the question's)
+    let fk := if rm == "purge" && fk == some FailKind.question then none else fk
     let l : Lookups := { exactHit := ex, cut := cut, cutWire := cut, denial := den, failure := fk, failureWire := fk,
                          witnessHolds := !den, denialImpossible := st.denialImpossible }
     -- the signed proof of a cut does not fit a DO client's 512-octet UDP buffer (the
